@@ -191,6 +191,11 @@ func decodeBatchRecords(batch []byte, topic string, partition int32) ([]Record, 
 		if err != nil {
 			return nil, err
 		}
+		// The broker hands out offsets by position (it only accepts batches with
+		// lastOffsetDelta == recordCount-1) and stores the record bodies as the
+		// producer sent them. The delta inside a record is therefore client
+		// data; the offset of the i-th record is always baseOffset+i.
+		record.Offset = baseOffset + int64(i)
 		records = append(records, record)
 	}
 	return records, nil
